@@ -125,8 +125,17 @@ pub(crate) fn mk_fd(subs: &crate::io_uring::sq::Submissions) -> (std::mem::Manua
     (std::mem::ManuallyDrop::new(unsafe { AsyncFd::from_raw(n, kind, sq_from(subs.clone())) }), n, kind)
 }
 
-/// write_all: n == 0 => WriteZero; otherwise the next request covers exactly bytes [skip+n, len) at offset+n
-/// (or the current position), on the same descriptor; Ok exactly when skip+n == len, returning the original buffer.
+/// What the step left for the re-poll: status, the SkipBuf handed to reset, the offset argument.
+fn write_state<'fd>(w: &WriteAll<'fd, RB>) -> (St, u32, u64) {
+    let st = status_any(&w.write.fut.state);
+    let skip = crate::io_uring::op::verif_op::peek_resources(&w.write.fut.state).skip;
+    (st, skip, *w.write.fut.state.args())
+}
+
+/// write_all step: n == 0 => WriteZero; skip+n == len => Ok(original buffer), nothing re-armed; otherwise the inner
+/// operation is re-armed (NotStarted) with the SAME buffer, skip' = skip+n and offset' = offset+n (or still "current
+/// position") and re-polled.  [The re-poll submits WRITE(fd, ptr+skip', len-skip', offset'): op.poll.not_started,
+/// c13.enc.write and c10.skipbuf.]
 //@waker_stubs
 #[kani::proof]
 #[kani::unwind(3)]
@@ -140,49 +149,165 @@ fn c10_write_all_step() {
     kani::assume(skip < buf.len);
     let positional: bool = kani::any();
     let offset: u64 = if positional { kani::any() } else { NO_OFFSET };
-    kani::assume(offset == NO_OFFSET || offset <= u64::MAX - 64);
+    kani::assume(!positional || offset <= u64::MAX - 64); // an explicit offset is a real file offset, not the NO_OFFSET marker
     let mut w = afd.write_all(buf);
     if positional {
         w = w.at(offset);
     }
     w.write.fut.state.resources_mut().unwrap().skip = skip;
-    // the kernel reports n bytes written out of the len - skip that were requested
     let n: u32 = kani::any();
     kani::assume(n <= buf.len - skip);
     force_done(&w.write.fut.state, n as i32, 0);
     env::fallback_as_identity();
     env::use_poll_contract();
+    env::cut_at_repoll();
     let waker = env::waker(4);
     let mut ctx = Context::from_waker(&waker);
     let r = unsafe { Pin::new_unchecked(&mut w) }.poll_inner(&mut ctx);
-    let t = ring.tail.load(Ordering::SeqCst);
+    assert!(ring.tail.load(Ordering::SeqCst) == 0);
     if n == 0 {
         assert!(matches!(&r, Poll::Ready(Err(e)) if e.kind() == io::ErrorKind::WriteZero), "nothing accepted => WriteZero");
-        assert!(t == 0);
     } else if skip + n == buf.len {
         assert!(matches!(&r, Poll::Ready(Ok(b)) if b.ptr == buf.ptr && b.len == buf.len && b.cap == buf.cap), "everything written => Ok with the caller's original buffer");
-        assert!(t == 0, "no further request");
+        assert!(unsafe { env::E.repoll_entries } == 1, "no re-poll");
     } else {
-        assert!(r.is_pending(), "bytes left => continue");
-        assert!(t == 1, "exactly one continuation request");
-        let e = abi::Sqe {
-            opcode: abi::OP_WRITE,
-            fd: fdn,
-            flags: fixed(kind),
-            off: if positional { offset + n as u64 } else { NO_OFFSET },
-            addr: buf.ptr.addr() as u64 + (skip + n) as u64,
-            len: buf.len - skip - n,
-            user_data: user_data_of(&w.write.fut.state),
-            ..abi::ZERO
-        };
-        assert!(sqe_bytes(&ring.sqes[0]) == abi::words(&e), "continuation covers exactly the unwritten bytes, at the advanced offset, same descriptor");
-        assert!(status_any(&w.write.fut.state) == St::Running);
+        assert!(r.is_pending() && unsafe { env::E.repoll_entries } == 2, "bytes left => re-armed and re-polled");
+        let (st, skip2, off2) = write_state(&w);
+        assert!(st == St::NotStarted, "inner operation re-armed");
+        assert!(skip2 == skip + n, "continues right after the bytes the kernel accepted");
+        assert!(off2 == if positional { offset + n as u64 } else { NO_OFFSET } && w.offset == off2, "at the advanced offset (or still at the current position)");
+        let b = crate::io_uring::op::verif_op::peek_resources(&w.write.fut.state).buf;
+        assert!(b.ptr == buf.ptr && b.len == buf.len && b.cap == buf.cap, "same buffer");
     }
     std::mem::forget(r);
     std::mem::forget(w);
-    // reachability witnesses (CBMC reports ERROR for cover goals on a formula of this size): each MUST fail
+    // reachability witnesses (each MUST fail; CBMC reports ERROR for cover goals on formulas of this size)
     assert!(!(n > 0 && skip + n < buf.len && positional), "CANARY: positional continuation reachable");
     assert!(!(n > 0 && skip + n < buf.len && !positional && skip > 0), "CANARY: second continuation at the current position reachable");
     assert!(!(skip + n == buf.len && skip > 0), "CANARY: finished after a partial write reachable");
     assert!(n != 0, "CANARY: write zero reachable");
+}
+
+/// SkipBuf: the wrapper the single-buffer continuations rely on — exposes exactly the bytes behind `skip`
+#[kani::proof]
+#[kani::unwind(3)]
+fn c10_skipbuf() {
+    let buf = any_rb(0);
+    let skip: u32 = kani::any();
+    let sb = SkipBuf { buf, skip };
+    let (p, l) = unsafe { Buf::parts(&sb) };
+    if skip >= buf.len {
+        assert!(l == 0, "everything skipped: empty");
+    } else {
+        assert!(p.addr() == buf.ptr.addr() + skip as usize && l == buf.len - skip, "parts == (ptr + skip, len - skip)");
+    }
+    assert!(Buf::len(&sb) == l as usize && Buf::is_empty(&sb) == (l == 0));
+    kani::cover!(skip > buf.len, "skip beyond the end");
+    kani::cover!(skip > 0 && skip < buf.len, "partial skip");
+}
+
+/// write_all_vectored step (2 buffers, empties anywhere): Ok exactly when every byte of every buffer has been
+/// written; otherwise re-armed with iovecs == the suffix of the concatenation from skip+n, same buffers, advanced offset.
+//@waker_stubs
+#[kani::proof]
+#[kani::unwind(4)]
+fn c10_write_all_vectored_step() {
+    let mut ring = FakeSq::<2>::new(0, 0, 0);
+    let subs = subs_of(ring.shared(2, false, false));
+    let (afd, fdn, kind) = mk_fd(&subs);
+    let b0 = any_rb(0);
+    let b1 = any_rb(1);
+    let total = b0.len as u64 + b1.len as u64;
+    kani::assume(total >= 1);
+    let skip: u64 = kani::any();
+    kani::assume(skip < total);
+    let positional: bool = kani::any();
+    let offset: u64 = if positional { kani::any() } else { NO_OFFSET };
+    kani::assume(!positional || offset <= u64::MAX - 64); // an explicit offset is a real file offset, not the NO_OFFSET marker
+    let mut w = afd.write_all_vectored((b0, b1));
+    if positional {
+        w = w.at(offset);
+    }
+    w.skip = skip;
+    let n: u64 = kani::any();
+    kani::assume(n <= total - skip);
+    force_done(&w.write.fut.state, n as i32, 0);
+    env::fallback_as_identity();
+    env::use_poll_contract();
+    env::cut_at_repoll();
+    let waker = env::waker(4);
+    let mut ctx = Context::from_waker(&waker);
+    let r = unsafe { Pin::new_unchecked(&mut w) }.poll_inner(&mut ctx);
+    if n == 0 {
+        assert!(matches!(&r, Poll::Ready(Err(e)) if e.kind() == io::ErrorKind::WriteZero));
+    } else if skip + n == total {
+        assert!(matches!(&r, Poll::Ready(Ok(_))), "every byte written => Ok");
+        assert!(unsafe { env::E.repoll_entries } == 1);
+    } else {
+        assert!(r.is_pending() && unsafe { env::E.repoll_entries } == 2, "bytes left in SOME buffer => not finished: re-armed and re-polled");
+        assert!(status_any(&w.write.fut.state) == St::NotStarted && w.skip == skip + n);
+        let s2 = skip + n;
+        let res = crate::io_uring::op::verif_op::peek_resources(&w.write.fut.state);
+        let iov = &res.1;
+        // suffix of the concatenation starting at s2
+        let (w0p, w0l) = if s2 < b0.len as u64 { (b0.ptr.addr() as u64 + s2, b0.len as u64 - s2) } else { (0, 0) };
+        let in1 = if s2 > b0.len as u64 { s2 - b0.len as u64 } else { 0 };
+        assert!(iov[0].len() as u64 == w0l && (w0l == 0 || unsafe { iov[0].ptr() }.addr() as u64 == w0p), "first iovec == unwritten tail of the first buffer");
+        assert!(iov[1].len() as u64 == b1.len as u64 - in1 && (iov[1].len() == 0 || unsafe { iov[1].ptr() }.addr() as u64 == b1.ptr.addr() as u64 + in1), "second iovec == unwritten tail of the second buffer");
+        assert!(*w.write.fut.state.args() == if positional { offset + n } else { NO_OFFSET });
+    }
+    std::mem::forget(r);
+    std::mem::forget(w);
+    assert!(!(n > 0 && skip + n < total && b1.len == 0), "CANARY: unfinished with an EMPTY LAST buffer reachable");
+    assert!(!(n > 0 && skip + n < total && b1.len > 0 && skip + n > b0.len as u64), "CANARY: continuation inside the second buffer reachable");
+    assert!(!(skip + n == total && n > 0), "CANARY: finished reachable");
+    assert!(n != 0, "CANARY: write zero reachable");
+}
+
+/// read_n step: last transfer 0 => UnexpectedEof; last >= left => Ok(buffer); otherwise re-armed with the same buffer
+/// (now holding the bytes read so far), left' = left - last, offset' = offset + last.
+//@waker_stubs
+#[kani::proof]
+#[kani::unwind(3)]
+fn c10_read_n_step() {
+    let mut ring = FakeSq::<2>::new(0, 0, 0);
+    let subs = subs_of(ring.shared(2, false, false));
+    let (afd, fdn, kind) = mk_fd(&subs);
+    let buf = any_rb(0);
+    kani::assume(buf.cap > buf.len);
+    let left: usize = kani::any();
+    kani::assume(left >= 1);
+    let positional: bool = kani::any();
+    let offset: u64 = if positional { kani::any() } else { NO_OFFSET };
+    kani::assume(!positional || offset <= u64::MAX - 64); // an explicit offset is a real file offset, not the NO_OFFSET marker
+    let mut rd = afd.read_n(buf, left);
+    if positional {
+        rd = rd.from(offset);
+    }
+    let n: u32 = kani::any();
+    kani::assume(n <= buf.cap - buf.len);
+    force_done(&rd.read.state, n as i32, 0);
+    env::fallback_as_identity();
+    env::use_poll_contract();
+    env::cut_at_repoll();
+    let waker = env::waker(4);
+    let mut ctx = Context::from_waker(&waker);
+    let r = unsafe { Pin::new_unchecked(&mut rd) }.poll(&mut ctx);
+    if n == 0 {
+        assert!(matches!(&r, Poll::Ready(Err(e)) if e.kind() == io::ErrorKind::UnexpectedEof), "stream ended first => UnexpectedEof");
+    } else if n as usize >= left {
+        assert!(matches!(&r, Poll::Ready(Ok(b)) if b.ptr == buf.ptr && b.len == buf.len + n), "at least n bytes appended => Ok(buffer)");
+        assert!(unsafe { env::E.repoll_entries } == 1);
+    } else {
+        assert!(r.is_pending() && unsafe { env::E.repoll_entries } == 2);
+        assert!(status_any(&rd.read.state) == St::NotStarted && rd.left == left - n as usize, "still missing left - last bytes");
+        let nb = crate::io_uring::op::verif_op::peek_resources(&rd.read.state);
+        assert!(nb.buf.ptr == buf.ptr && nb.buf.len == buf.len + n && nb.buf.cap == buf.cap, "same buffer, bytes read so far kept in arrival order; the next read uses the remaining capacity only");
+        assert!(*rd.read.state.args() == if positional { offset + n as u64 } else { NO_OFFSET } && rd.offset == *rd.read.state.args());
+    }
+    std::mem::forget(r);
+    std::mem::forget(rd);
+    assert!(!(n > 0 && (n as usize) < left && positional), "CANARY: positional continuation reachable");
+    assert!(!(n as usize >= left), "CANARY: finished reachable");
+    assert!(n != 0, "CANARY: eof reachable");
 }
